@@ -83,12 +83,14 @@ def ref_ln_ei(mu, sig, ymax):
     return math.log(sig) - 0.5 * math.log(2 * math.pi) + math.log(I)
 
 
-def spot_oracles(V, opt, sc, bounds, g, stats):
+def spot_oracles(V, opt, sc, bounds, g, stats, first=None):
     acq = opt.acquisition
     gp = opt.gp
     X = np.asarray(opt.x, dtype=float)
     ymax = float(np.max(opt.y))
     pts = []
+    if first is not None:
+        pts.append(np.array(first, dtype=float).reshape(-1))  # the very first query after an update: the point just added
     lo = np.array([b[0] for b in bounds])
     hi = np.array([b[1] for b in bounds])
     for _ in range(3):
@@ -366,7 +368,7 @@ def execute(sc):
             if not V:
                 model_ok("after %s" % name)
             if not V:
-                spot_oracles(V, opt, sc, bounds, og, stats)
+                spot_oracles(V, opt, sc, bounds, og, stats, first=nx if name != "propose" else None)
     for k2, v in c.stats.items():
         stats[k2] += v
     return dict(violations=V, stats=dict(stats), digest=digest(sc), nontrivial=stats["proposals"] > 0 or len(my) > sc["n0"],
